@@ -26,6 +26,7 @@ import (
 
 	"github.com/tochemey/goakt/v4/log"
 	"github.com/tochemey/goakt/v4/passivation"
+	"github.com/tochemey/goakt/v4/supervisor"
 )
 
 // ---------------------------------------------------------------------------------------------- actor
@@ -34,6 +35,16 @@ type c10Actor struct {
 	mu   sync.Mutex
 	term []string // names carried by the Terminated messages received, in order
 	n    atomic.Int64
+	log  []string // busy test: what was handled, in order ("T:<name>", "F")
+}
+
+type c10Crash struct{}                                // the handler panics: the supervisor takes over
+type c10Park struct{ entered, release chan struct{} } // the handler stays inside Receive until released
+type c10Fill struct{}
+
+// every harness actor is supervised with "restart on any failure"
+func c10Supervised() SpawnOption {
+	return WithSupervisor(supervisor.NewSupervisor(supervisor.WithAnyErrorDirective(supervisor.RestartDirective)))
 }
 
 func (a *c10Actor) PreStart(*Context) error { return nil }
@@ -43,11 +54,21 @@ func (a *c10Actor) Receive(ctx *ReceiveContext) {
 	case *Terminated:
 		a.mu.Lock()
 		a.term = append(a.term, m.ActorPath().Name())
+		a.log = append(a.log, "T:"+m.ActorPath().Name())
 		a.mu.Unlock()
 		a.n.Add(1)
 	case *c10Spawn:
-		child, err := ctx.Self().SpawnChild(context.Background(), m.Name, m.Actor)
+		child, err := ctx.Self().SpawnChild(context.Background(), m.Name, m.Actor, c10Supervised())
 		m.reply <- c10SpawnReply{child, err}
+	case *c10Crash:
+		panic("c10: scripted failure")
+	case *c10Park:
+		close(m.entered)
+		<-m.release
+	case *c10Fill:
+		a.mu.Lock()
+		a.log = append(a.log, "F")
+		a.mu.Unlock()
 	default:
 	}
 }
@@ -117,7 +138,7 @@ func c10Settle(sys ActorSystem, pids []*PID) error {
 // ---------------------------------------------------------------------------------------------- sequences
 
 type c10Op struct {
-	Op string `json:"op"` // watch unwatch stop poison passivate restart spawnchild suspend reinstate
+	Op string `json:"op"` // watch unwatch stop poison passivate restart crash spawnchild suspend reinstate
 	W  int    `json:"w"`  // watcher / parent
 	A  int    `json:"a"`  // watchee / subject / new child index
 }
@@ -235,6 +256,22 @@ func (w *c10World) apply(ctx context.Context, op c10Op) error {
 		w.pids[op.A].doReinstate()
 	case "restart":
 		opErr = w.pids[op.A].Restart(ctx)
+	case "crash":
+		// the actor panics while handling a message: notifyParent suspends it and its parent applies the
+		// RestartDirective (restartChild: parent.UnWatch(child); child.Restart())
+		p := w.pids[op.A]
+		before := p.RestartCount()
+		opErr = Tell(ctx, p, &c10Crash{})
+		if opErr == nil {
+			deadline := time.Now().Add(c10Patience())
+			for p.RestartCount() == before || !p.IsRunning() {
+				if time.Now().After(deadline) {
+					opErr = fmt.Errorf("crash: the actor was not restarted by its supervisor")
+					break
+				}
+				time.Sleep(100 * time.Microsecond)
+			}
+		}
 	case "spawnchild":
 		a := &c10Actor{}
 		m := &c10Spawn{Name: w.name(op.A), Actor: a, reply: make(chan c10SpawnReply, 1)}
@@ -267,7 +304,7 @@ func c10RunCase(ctx context.Context, sys ActorSystem, c c10Case) c10Out {
 	}
 	for i := 0; i < c.N; i++ {
 		a := &c10Actor{}
-		p, err := sys.Spawn(ctx, w.name(i), a, WithPassivationStrategy(passivation.NewTimeBasedStrategy(time.Hour)))
+		p, err := sys.Spawn(ctx, w.name(i), a, WithPassivationStrategy(passivation.NewTimeBasedStrategy(time.Hour)), c10Supervised())
 		if err != nil {
 			out.Err = "spawn: " + err.Error()
 			return out
@@ -605,6 +642,165 @@ func TestVerifC10Race(t *testing.T) {
 		if parent.IsRunning() {
 			_ = parent.Shutdown(ctx)
 		}
+		if target.IsRunning() {
+			_ = target.Shutdown(ctx)
+		}
+	}
+}
+
+// ---------------------------------------------------------------------------------------------- busy watchers
+
+// A watcher that is slow (parked inside Receive) with a backlog of user messages in a mailbox of some kind, possibly
+// full, is still a running watcher: it must get its Terminated once it continues.
+type c10BusyCase struct {
+	ID   int    `json:"id"`
+	Kind string `json:"kind"` // default nbbounded bounded segmented fair
+	Cap  int    `json:"cap"`
+	Fill int    `json:"fill"` // user messages sent to the parked watcher before the stop
+	Path string `json:"path"` // shutdown poison passivate
+}
+
+type c10BusyOut struct {
+	ID       int      `json:"id"`
+	Count    int      `json:"count"`    // Terminated naming the target, received by the busy watcher
+	Plain    int      `json:"plain"`    // ... by an idle watcher with the default mailbox
+	Log      []string `json:"log"`      // what the busy watcher handled after it continued, in order
+	Accepted int      `json:"accepted"` // backlog that reached it
+	Hung     bool     `json:"hung,omitempty"`
+	HungHow  string   `json:"hung_how,omitempty"`
+	Err      string   `json:"err,omitempty"`
+}
+
+func c10Mailbox(kind string, capacity int) SpawnOption {
+	switch kind {
+	case "nbbounded":
+		return WithMailbox(NewNonBlockingBoundedMailbox(capacity))
+	case "bounded":
+		return WithMailbox(NewBoundedMailbox(capacity))
+	case "segmented":
+		return WithMailbox(NewUnboundedSegmentedMailbox())
+	case "fair":
+		return WithMailbox(NewUnboundedFairMailbox())
+	}
+	return WithMailbox(NewUnboundedMailbox())
+}
+
+func TestVerifC10Busy(t *testing.T) {
+	cases := verifReadJSONL[c10BusyCase](t, "c10_busy_in.jsonl")
+	w := newVerifWriter(t, "c10_busy_out.jsonl")
+	defer w.close()
+	ctx := context.Background()
+	sys := c10System(t, "verifC10busy")
+	defer func() {
+		if sys != nil {
+			_ = sys.Stop(ctx)
+		}
+	}()
+	for _, c := range cases {
+		out := c10BusyOut{ID: c.ID, Log: []string{}}
+		targetName := fmt.Sprintf("c10b-%d-target", c.ID)
+		target, err := sys.Spawn(ctx, targetName, &c10Actor{}, WithPassivationStrategy(passivation.NewTimeBasedStrategy(time.Hour)))
+		if err != nil {
+			t.Fatalf("spawn: %v", err)
+		}
+		busyActor, plainActor := &c10Actor{}, &c10Actor{}
+		busy, err := sys.Spawn(ctx, fmt.Sprintf("c10b-%d-busy", c.ID), busyActor, c10Mailbox(c.Kind, c.Cap))
+		if err != nil {
+			t.Fatalf("spawn: %v", err)
+		}
+		plain, err := sys.Spawn(ctx, fmt.Sprintf("c10b-%d-plain", c.ID), plainActor)
+		if err != nil {
+			t.Fatalf("spawn: %v", err)
+		}
+		if err := c10Settle(sys, []*PID{target, busy, plain}); err != nil {
+			out.Err = err.Error()
+			w.put(out)
+			continue
+		}
+		busy.Watch(target)
+		plain.Watch(target)
+		park := &c10Park{entered: make(chan struct{}), release: make(chan struct{})}
+		if err := Tell(ctx, busy, park); err != nil {
+			out.Err = "park: " + err.Error()
+			w.put(out)
+			continue
+		}
+		select {
+		case <-park.entered:
+		case <-time.After(c10Patience()):
+			out.Err = "park: not entered"
+			w.put(out)
+			continue
+		}
+		// backlog while it is parked (a full non-blocking mailbox rejects the excess: dead letters, not our concern)
+		filled := make(chan struct{})
+		go func() {
+			defer close(filled)
+			for i := 0; i < c.Fill; i++ {
+				_ = Tell(ctx, busy, &c10Fill{})
+			}
+		}()
+		select {
+		case <-filled:
+		case <-time.After(c10Patience()):
+			// a blocking bounded mailbox that is full holds the sender: that is its contract, go on
+		}
+		stopped := make(chan struct{})
+		go func() {
+			defer close(stopped)
+			switch c.Path {
+			case "poison":
+				_ = Tell(ctx, target, &PoisonPill{})
+				deadline := time.Now().Add(c10Patience())
+				for target.IsRunning() && time.Now().Before(deadline) {
+					time.Sleep(50 * time.Microsecond)
+				}
+			case "passivate":
+				target.tryPassivation("verif")
+			default:
+				_ = target.Shutdown(ctx)
+			}
+		}()
+		select {
+		case <-stopped:
+		case <-time.After(c10Patience()):
+			out.Hung, out.HungHow = true, "stopping the watched actor did not return while its watcher was busy"
+			close(park.release)
+			w.put(out)
+			sys = nil
+			return
+		}
+		// let the stop's notifications land before the watcher continues
+		_ = c10Settle(sys, []*PID{target, plain})
+		close(park.release)
+		<-filled
+		if err := c10Settle(sys, []*PID{busy, plain}); err != nil {
+			out.Hung, out.HungHow = true, "the busy watcher did not become idle after it was released"
+			w.put(out)
+			sys = nil
+			return
+		}
+		busyActor.mu.Lock()
+		for _, e := range busyActor.log {
+			if e == "F" {
+				out.Accepted++
+				out.Log = append(out.Log, "F")
+			} else if e == "T:"+targetName {
+				out.Count++
+				out.Log = append(out.Log, "T")
+			} else {
+				out.Log = append(out.Log, "?")
+			}
+		}
+		busyActor.mu.Unlock()
+		for _, nm := range plainActor.terminated() {
+			if nm == targetName {
+				out.Plain++
+			}
+		}
+		w.put(out)
+		_ = busy.Shutdown(ctx)
+		_ = plain.Shutdown(ctx)
 		if target.IsRunning() {
 			_ = target.Shutdown(ctx)
 		}
